@@ -422,6 +422,29 @@ static int _GD_MoveOver(DIRFILE *restrict D, int fragment,
   return 0;
 }
 
+/* An out-of-place write cannot be completed: close both sides and remove the
+ * temporary file.  The data file itself has not been touched. */
+static void _GD_AbandonOOP(DIRFILE *D, const gd_entry_t *E, int fragment)
+{
+  struct gd_raw_file_ *file = E->e->u.raw.file;
+  const struct encoding_t *enc = _GD_ef + file[0].subenc;
+
+  dtrace("%p, %p, %i", D, E, fragment);
+
+  if (file[1].idata >= 0)
+    (*enc->close)(file + 1);
+  if (file[0].idata >= 0)
+    (*enc->close)(file + 0);
+
+  if (file[1].name != NULL && file[1].idata < 0) {
+    gd_UnlinkAt(D, D->fragment[fragment].dirfd, file[1].name, 0);
+    free(file[1].name);
+    file[1].name = NULL;
+  }
+
+  dreturnvoid();
+}
+
 /* Close a raw file, taking care of cleaning-up out-of-place writes, and
  * discarding temporary files.  When we're moving an entry to a new fragment,
  * fragment != E->fragment_index */
@@ -456,6 +479,7 @@ int _GD_FiniRawIO(DIRFILE *D, const gd_entry_t *E, int fragment, int flags)
           if (n_read < 0) {
             free(buffer);
             _GD_SetEncIOError(D, GD_E_IO_READ, E->e->u.raw.file + 0);
+            _GD_AbandonOOP(D, E, fragment);
             dreturn("%i", -1);
             return -1;
           } else while (n_to_write > 0) {
@@ -464,6 +488,7 @@ int _GD_FiniRawIO(DIRFILE *D, const gd_entry_t *E, int fragment, int flags)
             if (n_wrote < 0) {
               free(buffer);
               _GD_SetEncIOError(D, GD_E_IO_WRITE, E->e->u.raw.file + 0);
+              _GD_AbandonOOP(D, E, fragment);
               dreturn("%i", -1);
               return -1;
             }
@@ -475,6 +500,10 @@ int _GD_FiniRawIO(DIRFILE *D, const gd_entry_t *E, int fragment, int flags)
       }
 
       if ((*_GD_ef[E->e->u.raw.file[0].subenc].close)(E->e->u.raw.file + 1)) {
+        /* the new file is incomplete: report it and throw it away */
+        if (D->error == GD_E_OK)
+          _GD_SetEncIOError(D, GD_E_IO_CLOSE, E->e->u.raw.file + 1);
+        _GD_AbandonOOP(D, E, fragment);
         dreturn("%i", -1);
         return -1;
       }
@@ -490,6 +519,8 @@ int _GD_FiniRawIO(DIRFILE *D, const gd_entry_t *E, int fragment, int flags)
       {
         if (D->error == GD_E_OK)
           _GD_SetEncIOError(D, GD_E_IO_CLOSE, E->e->u.raw.file + clotemp);
+        if (oop_write && !clotemp)
+          _GD_AbandonOOP(D, E, fragment);
         dreturn("%i", 1);
         return 1;
       }
@@ -695,6 +726,8 @@ int _GD_InitRawIO(DIRFILE *D, gd_entry_t *E, const char *filebase, int fragment,
       /* In oop_write mode, it doesn't matter if the old file doesn't exist */
       if (!oop_write || errno != ENOENT) {
         _GD_SetEncIOError(D, GD_E_IO_OPEN, E->e->u.raw.file + 0);
+        if (oop_write)
+          _GD_AbandonOOP(D, E, fragment);
         dreturn("%i", 1);
         return 1;
       }
